@@ -1,6 +1,7 @@
 package sim
 
 import (
+	"bytes"
 	"encoding/hex"
 	"encoding/json"
 	"fmt"
@@ -356,6 +357,27 @@ func layerVectors() (sig, detail string, n int) {
 			}
 		}
 	}
+	// sized integers have no arm of their own in the published default order: they are ordered by
+	// their marshaled bytes (JSON decimal text), e.g. -1 < -12 < -3 < 10 < 100 < 11 < 2 < 9
+	small := []int64{-128, -100, -12, -3, -1, 0, 1, 2, 9, 10, 11, 25, 99, 100, 101, 127}
+	for _, a := range small {
+		for _, b := range small {
+			ja, _ := json.Marshal(a)
+			jb, _ := json.Marshal(b)
+			want := bytes.Compare(ja, jb)
+			pairs := [][2]interface{}{{int8(a), int8(b)}, {int16(a), int16(b)}, {int32(a), int32(b)}}
+			if a >= 0 && b >= 0 {
+				pairs = append(pairs, [2]interface{}{uint8(a), uint8(b)}, [2]interface{}{uint16(a), uint16(b)}, [2]interface{}{uint32(a), uint32(b)})
+			}
+			for _, p := range pairs {
+				n++
+				got, err := cmp(p[0], p[1])
+				if err != nil || sgn(got) != sgn(want) {
+					return fmt.Sprintf("C14/default-order-differs/%T", p[0]), fmt.Sprintf("DefaultKeyCompare(%T %v, %v) = %d (err %v); the published order of sized integers is that of their marshaled bytes: sign %d", p[0], p[0], p[1], got, err, sgn(want)), n
+				}
+			}
+		}
+	}
 	strs := []string{"", "a", "A", "a<", "a&", "ab", "b", "é", "k10", "k9", "k<1>", "\x00", "\xff"}
 	for _, a := range strs {
 		for _, b := range strs {
@@ -377,6 +399,15 @@ func layerVectors() (sig, detail string, n int) {
 	r := mast.NewRoot(nil)
 	if r.BranchFactor != 16 || r.NodeFormat != FmtBinary || r.Link != nil || r.Size != 0 || r.Height != 0 {
 		return "C14/new-tree-defaults-changed", fmt.Sprintf("NewRoot(nil) = %+v, published defaults: branch factor 16, format %s, empty", *r, FmtBinary), n
+	}
+	if r := mast.NewRoot(&mast.CreateRemoteOptions{BranchFactor: 4}); r.BranchFactor != 4 || r.NodeFormat != FmtBinary {
+		return "C14/new-tree-defaults-changed", fmt.Sprintf("NewRoot(BranchFactor: 4) = bf %d format %q; an unset NodeFormat defaults to %s", r.BranchFactor, r.NodeFormat, FmtBinary), n
+	}
+	if r := mast.NewRoot(&mast.CreateRemoteOptions{NodeFormat: mast.V1Marshaler}); r.BranchFactor != 16 || r.NodeFormat != FmtMarshaler {
+		return "C14/new-tree-defaults-changed", fmt.Sprintf("NewRoot(NodeFormat: v1marshaler) = bf %d format %q; an unset BranchFactor defaults to 16", r.BranchFactor, r.NodeFormat), n
+	}
+	if r := mast.NewRoot(&mast.CreateRemoteOptions{}); r.BranchFactor != 16 || r.NodeFormat != FmtBinary {
+		return "C14/new-tree-defaults-changed", fmt.Sprintf("NewRoot(empty options) = bf %d format %q", r.BranchFactor, r.NodeFormat), n
 	}
 	if mast.DefaultBranchFactor != 16 {
 		return "C14/new-tree-defaults-changed", fmt.Sprintf("DefaultBranchFactor = %d", mast.DefaultBranchFactor), n
